@@ -28,6 +28,7 @@ Step(e) ==
     [] e.a = "reqadv"     -> RequestAdvert(e.p, ToSet(e.out.toks))
     [] e.a = "reqmissing" -> RecvRequestMissing(e.p, e.k)
     [] e.a = "attest"     -> RecvAttest(e.p, e.x)
+    [] e.a = "fault"      -> Fault(e.tab)
     [] OTHER              -> FALSE
 
 Observed(e) ==
@@ -39,6 +40,7 @@ Observed(e) ==
   /\ mdTab' = ToSet(e.md)
   /\ attTab' = {[subj |-> r[1], auth |-> r[2], signer |-> r[3], md |-> r[4]] : r \in ToSet(e.att)}
   /\ chain' = e.chain
+  /\ fault' = e.fault
 
 TraceNext == /\ l <= Len(Ev)
              /\ Step(Ev[l]) /\ (Compare => Observed(Ev[l]))
